@@ -1,5 +1,5 @@
 (* C10 — Failures in user code stay isolated (statements only). *)
-From EAS Require Import Base Sched SchedInv SchedApi SchedProps SchedLog.
+From EAS Require Import Base Sched SchedInv SchedApi SchedProps SchedLog SchedIso.
 
 (* The invariant - hence the armed timer and the schedule of every job - holds in every reachable state
    for EVERY environment: whichever callables, callbacks and triggers raise at whichever invocation. *)
@@ -14,3 +14,20 @@ Theorem C10_never_early_under_any_failures :
     run E fuel hs (init t0 en) ops = (s, rs) -> Forall not_early (log s).
 Proof. exact never_early. Qed.
 Print Assumptions C10_never_early_under_any_failures.
+
+(* ISOLATION: for every history, running with an environment in which any callables and callbacks raise at any
+   of their invocations, and then erasing the corresponding exception-handler events from the log, gives
+   EXACTLY the final state and the outcomes of the same history in the failure-free environment: every API
+   call / wake-up completes the same way, the same jobs execute at the same instants, every job keeps its
+   schedule, the same timer is armed.  (Triggers raise identically in both environments.) *)
+Theorem C10_failures_isolated :
+  forall E f hs t0 en ops,
+    run (quiet_env E) f hs (init t0 en) ops =
+    (er (fst (run E f hs (init t0 en) ops)), snd (run E f hs (init t0 en) ops)).
+Proof. exact failures_isolated. Qed.
+Print Assumptions C10_failures_isolated.
+
+Theorem C10_step_isolated :
+  forall E f hs s o, pmap (step E f hs s o) = step (quiet_env E) f hs (er s) o.
+Proof. exact iso_step. Qed.
+Print Assumptions C10_step_isolated.
